@@ -151,7 +151,9 @@ def leaf_dispatch(out):
     for _, b in hd:
         stmts = kids(b)
         keydecl = [i for i, s in enumerate(stmts) if s.get('kind') == 'DeclStmt' and mentions(s, 'getEvent')]
-        fwd = [i for i, s in enumerate(stmts) if mentions(s, 'forward') and mentions(s, 'callableList')]
+        # the statements that forward the arguments on (to the list found, whatever the local is called): every statement
+        # other than the key's own declaration that mentions std::forward
+        fwd = [i for i, s in enumerate(stmts) if mentions(s, 'forward') and i not in keydecl]
         if len(keydecl) == 1 and fwd and keydecl[0] < min(fwd):
             hd_shapes.append('statement')
         else:
